@@ -9,7 +9,7 @@ N=${1:-48}; shift || true
 IDS=${*:-"C07 C08 C11 C12 C13 C14 C15 C19"}
 D=$(mktemp -d /tmp/verif-det.XXXXXX); trap 'rm -rf $D' EXIT
 "$V/check" build "$D/bin" >/dev/null || exit 2
-export VERIF_SIMSH=$D/bin/simsh
+export VERIF_SIMSH=$D/bin/simsh VERIF_GOAWK=$D/bin/goawk
 mkdir -p $D/shm; export VERIF_SHM=$D/shm
 rc=0
 for id in $IDS; do
